@@ -150,9 +150,10 @@ class Prover:
             return True
         if ('aligned', t, d) in self.facts or ('aligned', t, d) in self.ax:
             return True
-        for f in self.facts:
+        for f in list(self.facts) + list(self.ax):
             if f[0] == 'aligned' and f[1] == t and self.divides(d, f[2]):
                 return True
+        for f in self.facts:
             # is_pointer_aligned_to(p, a) true edge:  round_down(p, a) == p
             if f[0] == 'eq':
                 for x, y in ((f[1], f[2]), (f[2], f[1])):
